@@ -15,20 +15,22 @@ Proof. exact Proofs_Reapply.reapply_ignored. Qed.
 Print Assumptions reapply_ignored.
 
 (* -t: the patch that turned A into B, run again on B where its first hunk no longer fits at its stated place, is applied
-   in reverse and gives back exactly A, nothing rejected. *)
+   in reverse and gives back exactly A, nothing rejected; the rest of the run sees the reversed patch record (creation and
+   deletion, names and modes exchanged, as under -R), so that a file the patch had created is removed again. *)
 Theorem reapply_reversed : forall o p A B h hs,
   define_macro o = [] -> verbose o = false -> force o = false -> ignore_reversed o = false -> batch o = true ->
   (0 <= max_fuzz o)%Z ->
   hunks (effective o p) = h :: hs ->
   Conforming A B (hunks (effective o p)) -> (Z.of_nat (length B) < MAXZ)%Z ->
-  creates_file (effective o p) = false ->
+  creation_guard (reverse_patch (effective o p)) B ->
   loc_perfect (first_loc o (effective o p) B h) = false ->
-  exists r, apply_patch o B p = Ok r /\ r_out r = A /\ r_failed r = 0 /\ r_rej r = [] /\ r_skipped r = false.
+  exists r, apply_patch o B p = Ok r /\ r_out r = A /\ r_failed r = 0 /\ r_rej r = [] /\ r_skipped r = false /\
+            exists hs', r_patch r = set_hunks (reverse_patch (effective o p)) hs'.
 Proof. exact Proofs_Reapply.reapply_reversed. Qed.
 Print Assumptions reapply_reversed.
 
 (* -f: no guess is made; the first hunk is treated like every other one *)
-Theorem force_no_guess : forall o p f s hs, force o = true -> apply_first o p f s hs = apply_rest o p f 0 s hs.
+Theorem force_no_guess : forall o p f s hs, force o = true -> apply_first o p f s hs = with_patch p (apply_rest o p f 0 s hs).
 Proof. exact Proofs_Reapply.force_no_guess. Qed.
 Print Assumptions force_no_guess.
 
